@@ -271,6 +271,15 @@ Proof.
   split; [exact (next_wf l X v w Hwf Hn Hv Hl)|exact (next_wf l' X' v w' Hwf' Hn' Hv' Hl')].
 Qed.
 
+Lemma ct_wf_store l v : ct_wf l -> ct_wf (ct_store l v).
+Proof.
+  intros [W1 W2]. destruct (ct_store_proj l v) as (S1 & _ & _ & _ & _ & _ & S7 & S8). unfold ct_slot_is_last in *. split.
+  - intros j Hj. rewrite S1 in Hj. rewrite S7. destruct (ct_cap l <=? ct_n l); [apply W1; exact Hj|].
+    rewrite nth_set_nth_ne by lia. apply W1. exact Hj.
+  - rewrite S1, S8. unfold ct_cap. rewrite S7. unfold ct_cap in *. intros H.
+    destruct (nnat (length (ct_vals l)) <=? ct_n l) eqn:E; [lia|]. rewrite set_nth_len in H. apply W2. exact H.
+Qed.
+
 Lemma Rct_store l l' v : Rct l l' -> fb_parsed v = false -> Rct (ct_store l v) (ct_store l' v).
 Proof.
   intros (Hsc & Hsel & Hfirst & Hpre & (W1 & W2) & (W1' & W2')) Hv.
@@ -278,31 +287,23 @@ Proof.
   pose proof (ct_store_proj l' v) as (S1' & S2' & S3' & S4' & S5' & S6' & S7' & S8').
   destruct Hsc as (A1 & A2 & A3 & A4 & A5). unfold ct_slot_is_last in *.
   split. { unfold ct_scal. rewrite S1, S2, S3, S4, S5, S1', S2', S3', S4', S5'. auto. }
-  split. { rewrite <- !ct_store_prep. change (ct_sel (ct_st l v) = ct_sel (ct_st l' v)). now rewrite !ct_sel_store. }
+  split. { rewrite <- (ct_store_prep l v), <- (ct_store_prep l' v). change (ct_sel (ct_st l v) = ct_sel (ct_st l' v)). now rewrite !ct_sel_store. }
   split.
   { rewrite S1. intros Hn. specialize (Hfirst Hn). unfold ct_firstval, ct_cap in *. rewrite S6, S6', S7, S7'.
     assert (E : forall c : contacts, 0 < ct_n c ->
               nnat (length (if nnat (length (ct_vals c)) <=? ct_n c then ct_vals c else set_nth (N.to_nat (ct_n c)) v (ct_vals c))) = nnat (length (ct_vals c))
               /\ nth 0 (if nnat (length (ct_vals c)) <=? ct_n c then ct_vals c else set_nth (N.to_nat (ct_n c)) v (ct_vals c)) pfrom0 = nth 0 (ct_vals c) pfrom0).
-    { intros c Hc. destruct (_ <=? _); [auto|]. rewrite set_nth_len. split; [reflexivity|]. apply nth_set_nth_ne. lia. }
+    { intros c Hc. destruct (nnat (length (ct_vals c)) <=? ct_n c); [auto|]. rewrite set_nth_len. split; [reflexivity|]. apply nth_set_nth_ne. lia. }
     destruct (E l Hn) as [E1 E2]. destruct (E l' ltac:(lia)) as [E1' E2']. rewrite E1, E2, E1', E2'. exact Hfirst. }
   split.
   { intros j Hj Hlen Hlen'. rewrite S1 in Hj. rewrite S7 in *. rewrite S7' in *. unfold ct_cap in *.
     assert (E : forall c : contacts, (j < N.to_nat (ct_n c))%nat ->
               nth j (if nnat (length (ct_vals c)) <=? ct_n c then ct_vals c else set_nth (N.to_nat (ct_n c)) v (ct_vals c)) pfrom0 = nth j (ct_vals c) pfrom0
               /\ length (if nnat (length (ct_vals c)) <=? ct_n c then ct_vals c else set_nth (N.to_nat (ct_n c)) v (ct_vals c)) = length (ct_vals c)).
-    { intros c Hc. destruct (_ <=? _); [auto|]. rewrite set_nth_len. split; [|reflexivity]. apply nth_set_nth_ne. lia. }
+    { intros c Hc. destruct (nnat (length (ct_vals c)) <=? ct_n c); [auto|]. rewrite set_nth_len. split; [|reflexivity]. apply nth_set_nth_ne. lia. }
     destruct (E l Hj) as [E1 E2]. destruct (E l' ltac:(lia)) as [E1' E2']. rewrite E1, E1'. rewrite E2 in Hlen. rewrite E2' in Hlen'.
     apply Hpre; assumption. }
-  split.
-  - split.
-    + intros j Hj. rewrite S1 in Hj. rewrite S7. destruct (_ <=? _); [apply W1; exact Hj|]. rewrite nth_set_nth_ne by lia. apply W1. exact Hj.
-    + rewrite S1, S8. unfold ct_cap. rewrite S7. intros H.
-      destruct (ct_cap l <=? ct_n l) eqn:E; unfold ct_cap in E; rewrite E in *; [lia|]. rewrite set_nth_len in H. apply W2. exact H.
-  - split.
-    + intros j Hj. rewrite S1' in Hj. rewrite S7'. destruct (_ <=? _); [apply W1'; exact Hj|]. rewrite nth_set_nth_ne by lia. apply W1'. exact Hj.
-    + rewrite S1', S8'. unfold ct_cap. rewrite S7'. intros H.
-      destruct (ct_cap l' <=? ct_n l') eqn:E; unfold ct_cap in E; rewrite E in *; [lia|]. rewrite set_nth_len in H. apply W2'. exact H.
+  split; apply ct_wf_store; split; assumption.
 Qed.
 
 Lemma Rct_w_store l l' v (b b' : bool) : Rct l l' ->
@@ -322,7 +323,7 @@ Proof.
     assert (E : forall c : contacts, (j < N.to_nat (ct_n c))%nat ->
               nth j (if nnat (length (ct_vals c)) <=? ct_n c then ct_vals c else set_nth (N.to_nat (ct_n c)) v (ct_vals c)) pfrom0 = nth j (ct_vals c) pfrom0
               /\ length (if nnat (length (ct_vals c)) <=? ct_n c then ct_vals c else set_nth (N.to_nat (ct_n c)) v (ct_vals c)) = length (ct_vals c)).
-    { intros c Hc. destruct (_ <=? _); [auto|]. rewrite set_nth_len. split; [|reflexivity]. apply nth_set_nth_ne. lia. }
+    { intros c Hc. destruct (nnat (length (ct_vals c)) <=? ct_n c); [auto|]. rewrite set_nth_len. split; [|reflexivity]. apply nth_set_nth_ne. lia. }
     destruct (E l Hj) as [E1 E2]. destruct (E l' ltac:(lia)) as [E1' E2']. rewrite E1, E1'. rewrite E2 in Hlen. rewrite E2' in Hlen'.
     apply Hpre; assumption.
 Qed.
@@ -347,15 +348,14 @@ Proof.
   { intros c. unfold ct_cap. destruct (ct_store_proj c v) as (_ & _ & _ & _ & _ & _ & E & _). rewrite E.
     destruct (ct_slot_is_last c); [reflexivity|now rewrite set_nth_len]. }
   unfold ct_slot_is_last in *.
-  assert (Hcount : forall c6 c6', ct_count (ct_store l v) v = Some c6 -> ct_count (ct_store l' v) v = Some c6' -> ct_scal c6 c6' ->
+  assert (Hcount : fb_parsed v = true -> forall c6 c6', ct_count (ct_store l v) v = Some c6 -> ct_count (ct_store l' v) v = Some c6' -> ct_scal c6 c6' ->
             forall (b b' : bool) w w', w = (if b then pfrom0 else v) -> w' = (if b' then pfrom0 else v) ->
             b = false \/ b = (ct_cap l <=? ct_n l) -> b' = false \/ b' = (ct_cap l' <=? ct_n l') ->
             Rct (ct_reset_last_if b c6) (ct_reset_last_if b' c6')).
-  { intros c6 c6' E6 E6' Hc b b' w w' Ew Ew' Hb Hb'.
+  { intros Hv c6 c6' E6 E6' Hc b b' w w' Ew Ew' Hb Hb'.
     apply ct_count_proj in E6 as (P1 & P2 & P3 & P4 & P5). apply ct_count_proj in E6' as (P1' & P2' & P3' & P4' & P5').
     destruct (reset_last_proj b c6) as (Q1 & Q2 & Q3 & Q4 & Q5 & Q6 & Q7 & Q8).
     destruct (reset_last_proj b' c6') as (Q1' & Q2' & Q3' & Q4' & Q5' & Q6' & Q7' & Q8').
-    assert (Hv : fb_parsed v = true) by (destruct e; try (apply Hok; auto); discriminate).
     apply (Rct_next l l' v w w' _ _ HR).
     - subst w. destruct b; [destruct (fb_parsed pfrom0); reflexivity|now rewrite Hv].
     - subst w'. destruct b'; [destruct (fb_parsed pfrom0); reflexivity|now rewrite Hv].
@@ -373,7 +373,7 @@ Proof.
     pose proof (ct_count_scal _ _ v Hsc1) as Hc.
     destruct (ct_count (ct_store l v) v) as [c6|] eqn:E6, (ct_count (ct_store l' v) v) as [c6'|] eqn:E6'; try contradiction; [|exact I].
     cbn [ires_rel]. split; [reflexivity|]. split; [reflexivity|]. unfold Qct.
-    pose proof (Hcount c6 c6' eq_refl eq_refl Hc false false v v eq_refl eq_refl (or_introl eq_refl) (or_introl eq_refl)) as HR6.
+    pose proof (Hcount (Hok (or_introl eq_refl)) c6 c6' eq_refl eq_refl Hc false false v v eq_refl eq_refl (or_introl eq_refl) (or_introl eq_refl)) as HR6.
     cbn [ct_reset_last_if] in HR6. split; [exact HR6|].
     apply ct_count_proj in E6 as (P1 & P2 & P3 & P4 & P5). apply ct_count_proj in E6' as (P1' & P2' & P3' & P4' & P5').
     assert (G : forall (c X : contacts), ct_n X = ct_n c + 1 ->
@@ -393,7 +393,7 @@ Proof.
     pose proof (ct_count_scal _ _ v Hsc1) as Hc.
     destruct (ct_count (ct_store l v) v) as [c6|] eqn:E6, (ct_count (ct_store l' v) v) as [c6'|] eqn:E6'; try contradiction; [|exact I].
     cbn [ires_rel]. split; [reflexivity|].
-    apply (Hcount c6 c6' eq_refl eq_refl Hc _ _ _ _ eq_refl eq_refl); right; reflexivity.
+    apply (Hcount (Hok (or_intror eq_refl)) c6 c6' eq_refl eq_refl Hc _ _ _ _ eq_refl eq_refl); right; reflexivity.
   - unfold ires_rel, Qct. split; [reflexivity|]. split; [reflexivity|]. apply Rct_w_store. exact HR.
   - unfold ires_rel, Qct. split; [reflexivity|]. split; [reflexivity|]. apply Rct_w_store. exact HR.
   - unfold ires_rel, Qct. split; [reflexivity|]. split; [reflexivity|]. apply Rct_w_store. exact HR.
